@@ -3,6 +3,9 @@
 From Coq Require Import ZArith List Bool.
 Import ListNotations.
 From Verif Require Import Model.Cursor Proofs.CursorProofs.
+(* translator tie: required here, imported where the source theorems start (coqdep reads Requires reliably only
+   in the header, see harness/PYMINI.md) *)
+From Verif Require Base.PyValue Model.PyMini Model.PrimsApi Gen.SrcCursor Proofs.SrcCursor.
 Open Scope Z_scope.
 
 (* For every row type, every earlier history (state c), every result R and every
@@ -70,7 +73,7 @@ Proof. exact @slice_full. Qed.
 Print Assumptions C10_slice_full.
 
 From Coq Require Import String.
-From Verif Require Import Base.PyValue Model.PyMini Model.PrimsApi Gen.SrcCursor Proofs.SrcCursor.
+Import Verif.Base.PyValue Verif.Model.PyMini Verif.Model.PrimsApi Verif.Gen.SrcCursor Verif.Proofs.SrcCursor.
 Open Scope list_scope.
 
 (* ---- Tie by translation (re-checked on every run against the CURRENT source of beanquery/cursor.py).
@@ -184,6 +187,40 @@ Theorem C10_source_column_getitem : forall (call_ref : nat -> list pv -> pv) (pr
   end.
 Proof. exact column_getitem_src. Qed.
 Print Assumptions C10_source_column_getitem.
+
+(* iter(cursor): a NEW callable-iterator over self.fetchone with sentinel None; the cursor is not touched (the
+   model's NewIter; each Next is the fetchone tied above).  A cursor that is its own one-shot iterator has another
+   __init__ and another __iter__: both obligations break. *)
+Theorem C10_source_iter : forall (call_ref : nat -> list pv -> pv) (prim : string -> list pv -> PyMini.res pv)
+    (kIter kf : nat) (ctx d : pv) (c : cur pv),
+  ref_of refs "builtins.iter" = Some kIter ->
+  call_method call_ref prim cursor_iter (("fetchone", PRef kf) :: obj ctx d c) [] =
+  bind (do_call call_ref (PRef kIter) [PRef kf; PNone]) (fun it => Ok (("fetchone", PRef kf) :: obj ctx d c, it)).
+Proof. exact iter_src. Qed.
+Print Assumptions C10_source_iter.
+
+(* executemany: the source is the loop "parse once, then self.execute(query, p) for every p in order" (syntactic:
+   a call of a method on the receiver that changes it is outside the fragment), and running the translated execute
+   as that loop prescribes is the model's fold of Execute steps: the state after executemany is the one after the
+   LAST parameter set's Execute, arraysize and connection untouched throughout *)
+Theorem C10_source_executemany : forall (call_ref : nat -> list pv -> pv) (prim : string -> list pv -> PyMini.res pv)
+    (K : exec_refs) (ctx q : pv) (ps : list pv) (rs : list (pv * list pv)) (d0 : pv) (c : cur pv),
+  exec_refs_ok K ->
+  cursor_executemany =
+    {| f_params := ["self"; "query"; "params"]%string;
+       f_body := [SAssign (TName "query") (XCall (XConst (PRef (kParse K))) [XName "query"] None);
+                  SFor "p" (XName "params")
+                    [SExpr (XCall (XAttr (XName "self") "execute") [XName "query"; XName "p"] None)]];
+       f_gen := false |} /\
+  (Forall2 (fun p r => pipeline call_ref K ctx q p = Ok (PTuple [fst r; PList (snd r)])) ps rs ->
+   run_many call_ref prim (obj ctx d0 c) q ps =
+   Ok (obj ctx (fst (fold_left many_step rs (d0, c))) (snd (fold_left many_step rs (d0, c))))).
+Proof.
+  exact (fun cr pr K ctx q ps rs d0 c HK =>
+    conj (executemany_shape (kParse K) (proj1 (proj2 (proj2 HK))))
+         (executemany_run cr pr K ctx q ps rs d0 c HK)).
+Qed.
+Print Assumptions C10_source_executemany.
 
 (* Non-vacuity of the execute tie: the numbers of the generated refs table, and a pipeline that answers. *)
 Example C10_source_execute_example :
